@@ -108,6 +108,12 @@ func intern(t *Term) *Term {
 	if t.name != "" {
 		sb.WriteString(t.name)
 		sb.WriteByte('|')
+		// the interval of a variable / UF application is trusted by the simplifier:
+		// the same name with another declared range must be a different term
+		sb.WriteString(strconv.FormatInt(t.lo, 36))
+		sb.WriteByte(':')
+		sb.WriteString(strconv.FormatInt(t.hi, 36))
+		sb.WriteByte('|')
 	}
 	for _, a := range t.args {
 		sb.WriteString(strconv.FormatInt(int64(a.id), 36))
